@@ -85,7 +85,7 @@ func instPath(inst string) string {
 // RunKeyspace executes histories on a fixture per (mangle, validate).
 func RunKeyspace(finals []KSFinal, seed int64, stride int) (runs []KSRun, viols []drv.Violation, err error) {
 	rng := rand.New(rand.NewSource(seed))
-	fixtures := map[[2]bool]*fe.Fixture{}
+	fixtures := map[[3]bool]*fe.Fixture{}
 	defer func() {
 		for _, f := range fixtures {
 			f.Close()
@@ -95,10 +95,12 @@ func RunKeyspace(finals []KSFinal, seed int64, stride int) (runs []KSRun, viols 
 		if stride > 1 && (hi+int(seed))%stride != 0 {
 			continue
 		}
-		key := [2]bool{fin.Mangle, fin.Validate}
+		// the gRPC dependency check (on by default) is another switch that must not matter to where a key lands
+		noDeps := (hi/2+int(seed))%2 == 0
+		key := [3]bool{fin.Mangle, fin.Validate, noDeps}
 		f := fixtures[key]
 		if f == nil {
-			f, err = fe.New(fe.Opts{Mangle: fin.Mangle, NoValidateAC: !fin.Validate, MaxSize: 1 << 30})
+			f, err = fe.New(fe.Opts{Mangle: fin.Mangle, NoValidateAC: !fin.Validate, NoDepsCheck: noDeps, MaxSize: 1 << 30})
 			if err != nil {
 				return runs, viols, err
 			}
@@ -118,7 +120,7 @@ func RunKeyspace(finals []KSFinal, seed int64, stride int) (runs []KSRun, viols 
 		D := drv.GenData(rng, 40+rng.Intn(200), rng.Intn(3))
 		h := drv.MkBlob(D).Hash
 		bad := func(fm string, x ...any) {
-			viols = append(viols, drv.Violation{Prop: "C15", What: fmt.Sprintf("history %v mangling=%v validation=%v I1=%q I2=%q: ", fin.Hist, fin.Mangle, fin.Validate, names["I1"], names["I2"]) + fmt.Sprintf(fm, x...), Hist: hi})
+			viols = append(viols, drv.Violation{Prop: "C15", What: fmt.Sprintf("history %v mangling=%v validation=%v grpc_ac_deps_check=%v I1=%q I2=%q: ", fin.Hist, fin.Mangle, fin.Validate, !noDeps, names["I1"], names["I2"]) + fmt.Sprintf(fm, x...), Hist: hi})
 		}
 		// the value written by write k: an ActionResult whose exit code is k
 		arBytes := func(k int) []byte {
